@@ -80,27 +80,36 @@ class GridDistortion:
         Raises:
             ValueError: If the distortion type is not 'f-tan' or 'f-theta'.
         """
-        # trace single reference ray
+        # trace one reference ray along each axis (angle fields are launched
+        # with x mirrored, object heights are not: the sign of the scale is
+        # taken from the rays themselves)
         self.optic.trace_generic(Hx=0, Hy=1e-10, Px=0, Py=0,
                                  wavelength=self.wavelength)
+        y_ref = self.optic.surface_group.y[-1, 0]
+        self.optic.trace_generic(Hx=1e-10, Hy=0, Px=0, Py=0,
+                                 wavelength=self.wavelength)
+        x_ref = self.optic.surface_group.x[-1, 0]
 
         max_field = np.sqrt(2) / 2
         extent = np.linspace(-max_field, max_field, self.num_points)
         Hx, Hy = np.meshgrid(extent, extent)
 
-        if self.distortion_type == 'f-tan':
-            const = (self.optic.surface_group.y[-1, 0] /
-                     (np.tan(1e-10 * np.radians(self.optic.fields.max_field))))
-            xp = const * np.tan(Hx * np.radians(self.optic.fields.max_field))
-            yp = const * np.tan(Hy * np.radians(self.optic.fields.max_field))
-        elif self.distortion_type == 'f-theta':
-            const = (self.optic.surface_group.y[-1, 0] /
-                     (1e-10 * np.radians(self.optic.fields.max_field)))
-            xp = const * Hx * np.radians(self.optic.fields.max_field)
-            yp = const * Hy * np.radians(self.optic.fields.max_field)
-        else:
+        if self.distortion_type not in ('f-tan', 'f-theta'):
             raise ValueError('''Distortion type must be "f-tan" or
                                 "f-theta"''')
+
+        if self.optic.field_type == 'object_height':
+            # paraxial image position is proportional to the object height
+            xp = x_ref / 1e-10 * Hx
+            yp = y_ref / 1e-10 * Hy
+        elif self.distortion_type == 'f-tan':
+            scale = np.tan(1e-10 * np.radians(self.optic.fields.max_field))
+            xp = x_ref / scale * np.tan(Hx * np.radians(self.optic.fields.max_field))
+            yp = y_ref / scale * np.tan(Hy * np.radians(self.optic.fields.max_field))
+        else:
+            scale = 1e-10 * np.radians(self.optic.fields.max_field)
+            xp = x_ref / scale * Hx * np.radians(self.optic.fields.max_field)
+            yp = y_ref / scale * Hy * np.radians(self.optic.fields.max_field)
 
         self.optic.trace_generic(Hx=Hx.flatten(), Hy=Hy.flatten(), Px=0, Py=0,
                                  wavelength=self.wavelength)
@@ -113,8 +122,7 @@ class GridDistortion:
         data['yr'] = np.reshape(self.optic.surface_group.y[-1, :],
                                 (self.num_points, self.num_points))
 
-        # optical system flips x, so must correct this
-        data['xp'] = np.flip(xp)
+        data['xp'] = xp
         data['yp'] = yp
 
         # Find max distortion
@@ -122,6 +130,9 @@ class GridDistortion:
                         (data['yp'] - data['yr'])**2)
         rp = np.sqrt(data['xp']**2 + data['yp']**2)
 
-        data['max_distortion'] = np.max(100 * delta / rp)
+        # the relative departure is undefined at the axis point (rp = 0)
+        off_axis = rp > 1e-9 * np.max(rp)
+        data['max_distortion'] = (np.max(100 * delta[off_axis] / rp[off_axis])
+                                  if np.any(off_axis) else np.nan)
 
         return data
